@@ -23,7 +23,7 @@ func init() {
 		Run:  c05Atomic})
 	register(&Rule{ID: "C05.nlink", Floor: 8, AlsoOnly: map[string][]string{"C11": {"releases-removed-node"}}, AlsoFloor: map[string]int{"C11": 2},
 		Text: "the link counter moves with the directory entries: Link increments the counter of the node it inserts, inside that node's critical section; Remove / RemoveAll release (decrement) every node whose entry they remove, on every path and for every kind of node; Rename releases the node it displaces at the destination",
-		Also: []string{"C01", "C08", "C11"},
+		Also: []string{"C01", "C02", "C08", "C11"},
 		Run:  c05Nlink})
 	register(&Rule{ID: "C05.index", Floor: 5,
 		Text: "OrefaFS keeps the per-directory children maps and the path index in step: every function that inserts into (removes from) one also inserts into (removes from) the other",
